@@ -21,6 +21,7 @@ func init() {
 			"R2": "engine mutex must-held at every membership write / seat-manager assign-remove / hand single action (frozen exception: table creation)",
 			"R3": "seat manager: writes under the write lock; lock idiom in every taker",
 			"R4": "no re-entrant acquisition on the same instance along synchronous call edges",
+			"R7": "the dependency's ready group takes its own read lock twice while validating a signal (found by reading its SSA); the engine therefore adds participants only to a group created in the same function and not yet started, so that no writer can queue between the two read locks",
 			"R6": "callbacks on the membership ready group reach elements of the live player list / seat map / hand index list only under the engine mutex",
 			"R5": "the hand's current state is replaced synchronously by the caller that produced it (sole writer: the update function, unconditional, called as a plain call), so engine-mutex-serialised actions validate against the state left by the previous accepted action",
 		},
@@ -33,6 +34,7 @@ func init() {
 func checkC16(c *Ctx) {
 	p := c.P
 	checkHandStateSync(c, "R5")
+	checkReadyGroupNoRecursiveRLock(c, "R7")
 	checkLockHoldersNeverCopied(c, "R1")
 	et := p.singleImpl("", "TableEngine")
 	smT := p.singleImpl("/seat_manager", "SeatManager")
